@@ -475,6 +475,9 @@ func extractMachineShapes() {
 		{"transport/inproc", "listener", "Listen"}, {"transport/inproc", "listener", "Accept"}, {"transport/inproc", "listener", "Close"},
 		{"transport/inproc", "dialer", "Dial"}, {"transport/inproc", "dialer", "Close"}, {"transport/inproc", "inproc", "Close"},
 	})
+	table("deviceShapes", "mangos.Device and its forwarder as read", []struct{ pkg, recv, name string }{
+		{".", "", "Device"}, {".", "", "forwarder"},
+	})
 	table("rawRecvShapes", "the raw receive paths as read: receiver goroutine and RecvMsg of XREQ, XSURVEYOR and XSUB", []struct{ pkg, recv, name string }{
 		{"protocol/xreq", "pipe", "receiver"}, {"protocol/xreq", "socket", "RecvMsg"},
 		{"protocol/xsurveyor", "pipe", "receiver"}, {"protocol/xsurveyor", "socket", "RecvMsg"},
